@@ -729,6 +729,141 @@ def _isinstance_classes(test: ast.AST, subject: str) -> Optional[set[str]]:
     return None
 
 
+def _name_test_clauses(ctx, res: RuleResult, counts: dict[str, int]) -> None:
+    """clauses (c) and (d) of R01.6, on XPathContext.iter_matching_nodes"""
+    from ..engine.dataflow import branch_facts
+    model = ctx.model
+    xc = model.find_class('XPathContext')
+    # (c) principal node kind: a name test matches attributes on the attribute axis only
+    from ..engine.cfg import CFG as _CFG
+    mm = xc.methods.get('iter_matching_nodes')
+    if mm is None:
+        raise AnalysisError('XPathContext.iter_matching_nodes vanished')
+    cfg_m = _CFG(mm.node)
+    facts_m = branch_facts(cfg_m)
+
+    def ev3(e: ast.AST, attr_axis: bool, kind: str):
+        """three-valued value of a test for (axis == 'attribute') = attr_axis, item kind"""
+        if isinstance(e, ast.UnaryOp) and isinstance(e.op, ast.Not):
+            v = ev3(e.operand, attr_axis, kind)
+            return None if v is None else not v
+        if isinstance(e, ast.BoolOp):
+            vs = [ev3(v, attr_axis, kind) for v in e.values]
+            if isinstance(e.op, ast.And):
+                return False if False in vs else (None if None in vs else True)
+            return True if True in vs else (None if None in vs else False)
+        if isinstance(e, ast.Compare) and len(e.ops) == 1 and stmt_text(e.left) == 'self.axis' \
+                and isinstance(e.comparators[0], ast.Constant):
+            c = e.comparators[0].value
+            if isinstance(e.ops[0], (ast.Eq, ast.NotEq)) and isinstance(c, str):
+                v = attr_axis if c == 'attribute' else (False if attr_axis else None)
+                return v if v is None or isinstance(e.ops[0], ast.Eq) else not v
+            if c is None and isinstance(e.ops[0], (ast.Is, ast.IsNot)):
+                return isinstance(e.ops[0], ast.IsNot)
+            return None
+        if isinstance(e, ast.Call) and dotted(e.func) == 'isinstance' and len(e.args) == 2 \
+                and stmt_text(e.args[0]) == 'self.item':
+            c = e.args[1]
+            if isinstance(c, ast.IfExp):
+                t = ev3(c.test, attr_axis, kind)
+                if t is None:
+                    return None
+                c = c.body if t else c.orelse
+            names = {dotted(x).split('.')[-1] for x in (c.elts if isinstance(c, ast.Tuple) else [c])}
+            if names <= {'AttributeNode', 'ElementNode', 'EtreeElementNode', 'TextAttributeNode'}:
+                return any(kind in nm for nm in names)
+            return None
+        return None
+
+    n_pk = 0
+    for nd in cfg_m.nodes:
+        if nd.ast is None or nd.kind != 'stmt' or not any(
+                isinstance(y, ast.Yield) and y.value is not None
+                and stmt_text(y.value) == 'self.item' for y in ast.walk(nd.ast)):
+            continue
+        fs = facts_m[nd.id]
+        if not any(fa in ('+self.axis is not None', '-self.axis is None') for fa in fs):
+            continue
+        n_pk += 1
+        admitted_combos = []
+        for attr_axis in (True, False):
+            for kind in ('Attribute', 'Element'):
+                ok_c = True
+                for fa in fs:
+                    try:
+                        ex = ast.parse(fa[1:], mode='eval').body
+                    except SyntaxError:
+                        continue
+                    v = ev3(ex, attr_axis, kind)
+                    if v is not None and v != (fa[0] == '+'):
+                        ok_c = False
+                if ok_c:
+                    admitted_combos.append((attr_axis, kind))
+        bad_c = [c for c in admitted_combos if c in ((False, 'Attribute'), (True, 'Element'))]
+        res.instances.append(f'{mm.key}: L{nd.ast.lineno} name test with an active axis admits '
+                             f'(attribute axis, kind) = {admitted_combos}')
+        if not bad_c:
+            res.ok()
+        else:
+            what = 'an attribute on an axis other than attribute' if (False, 'Attribute') in bad_c \
+                else 'an element on the attribute axis'
+            res.fail(finding('R01.6', mm, nd.ast, 'name test ignores the principal node kind',
+                             f'`{stmt_text(nd.ast)[:40]}` is reached for {what}: a name test '
+                             f'selects nodes of the principal node kind of the axis (attribute '
+                             f'for the attribute axis, element otherwise), so //@a/self::a and '
+                             f'//@a/ancestor-or-self::a must not select the attribute'))
+    # (d) a name test on the children selects by name *and* kind
+    n_ch = 0
+    for nd in cfg_m.nodes:
+        if nd.ast is None or nd.kind != 'stmt':
+            continue
+        ys = [y for y in ast.walk(nd.ast) if isinstance(y, ast.Yield) and y.value is not None]
+        if not ys:
+            continue
+        fs = facts_m[nd.id]
+        if any(fa in ('+self.axis is not None', '-self.axis is None') for fa in fs):
+            continue
+        for y in ys:
+            v = y.value
+            if isinstance(v, ast.Call) and dotted(v.func).split('.')[-1] == 'cast' and len(v.args) == 2:
+                v = v.args[1]
+            subj = stmt_text(v)
+            n_ch += 1
+            ok_k = any(fa.startswith(f'+{subj}.match_name(') for fa in fs) or any(
+                fa.startswith(f'+isinstance({subj}, ') and 'ElementNode' in fa for fa in fs)
+            res.instances.append(f'{mm.key}: L{nd.ast.lineno} child name test yields `{subj}` under '
+                                 f'match_name() or an element-kind fact: {ok_k}')
+            if ok_k:
+                res.ok()
+            else:
+                res.fail(finding('R01.6', mm, nd.ast, f'child name test without kind: {subj}',
+                                 f'`{stmt_text(nd.ast)[:50]}` selects a child by a comparison of '
+                                 f'names alone ({sorted(f_ for f_ in fs if subj in f_)[:2]}): the '
+                                 f'`name` of a processing instruction is its target, so '
+                                 f'<a><x/><?x d?><x/></a>/a/x[2] selects the instruction; '
+                                 f'match_name() (or an ElementNode test) decides the kind'))
+    counts['child_name_tests'] = n_ch
+    if n_ch < 1:
+        raise AnalysisError('iter_matching_nodes: the child name test was not located')
+    counts['name_test_admissions'] = n_pk
+    if n_pk < 1:
+        raise AnalysisError('iter_matching_nodes: the name test under an active axis was not located')
+
+
+def r01_6_names(ctx, counts: dict[str, int]) -> RuleResult:
+    """the name-test clauses of R01.6 alone (shared with C14)"""
+    res = RuleResult(
+        'R01.6', 'NAME-TEST-KIND',
+        'The name-test clauses (c) and (d) of R01.6: in XPathContext.iter_matching_nodes a name '
+        'test with an active axis admits attributes on the attribute axis only and elements on '
+        'the others (principal node kind), and a name test on the children yields a child under '
+        'match_name() or an element-kind fact, never under a comparison of names alone: the '
+        '`name` of a processing instruction is its target, so a generated path step '
+        'Q{}x[2] would count the instruction <?x ..?> among the x elements.')
+    _name_test_clauses(ctx, res, counts)
+    return res
+
+
 def r01_6(ctx, counts: dict[str, int]) -> RuleResult:
     """Axes from attribute / namespace / text / comment / PI context nodes."""
     from ..engine.dataflow import branch_facts
@@ -861,87 +996,7 @@ def r01_6(ctx, counts: dict[str, int]) -> RuleResult:
                 f_.path = [f'L{q.lineno}: {stmt_text(q.ast)[:60]}' for q in path
                            if q.ast is not None][:8]
                 res.fail(f_)
-    # (c) principal node kind: a name test matches attributes on the attribute axis only
-    from ..engine.cfg import CFG as _CFG
-    mm = xc.methods.get('iter_matching_nodes')
-    if mm is None:
-        raise AnalysisError('XPathContext.iter_matching_nodes vanished')
-    cfg_m = _CFG(mm.node)
-    facts_m = branch_facts(cfg_m)
-
-    def ev3(e: ast.AST, attr_axis: bool, kind: str):
-        """three-valued value of a test for (axis == 'attribute') = attr_axis, item kind"""
-        if isinstance(e, ast.UnaryOp) and isinstance(e.op, ast.Not):
-            v = ev3(e.operand, attr_axis, kind)
-            return None if v is None else not v
-        if isinstance(e, ast.BoolOp):
-            vs = [ev3(v, attr_axis, kind) for v in e.values]
-            if isinstance(e.op, ast.And):
-                return False if False in vs else (None if None in vs else True)
-            return True if True in vs else (None if None in vs else False)
-        if isinstance(e, ast.Compare) and len(e.ops) == 1 and stmt_text(e.left) == 'self.axis' \
-                and isinstance(e.comparators[0], ast.Constant):
-            c = e.comparators[0].value
-            if isinstance(e.ops[0], (ast.Eq, ast.NotEq)) and isinstance(c, str):
-                v = attr_axis if c == 'attribute' else (False if attr_axis else None)
-                return v if v is None or isinstance(e.ops[0], ast.Eq) else not v
-            if c is None and isinstance(e.ops[0], (ast.Is, ast.IsNot)):
-                return isinstance(e.ops[0], ast.IsNot)
-            return None
-        if isinstance(e, ast.Call) and dotted(e.func) == 'isinstance' and len(e.args) == 2 \
-                and stmt_text(e.args[0]) == 'self.item':
-            c = e.args[1]
-            if isinstance(c, ast.IfExp):
-                t = ev3(c.test, attr_axis, kind)
-                if t is None:
-                    return None
-                c = c.body if t else c.orelse
-            names = {dotted(x).split('.')[-1] for x in (c.elts if isinstance(c, ast.Tuple) else [c])}
-            if names <= {'AttributeNode', 'ElementNode', 'EtreeElementNode', 'TextAttributeNode'}:
-                return any(kind in nm for nm in names)
-            return None
-        return None
-
-    n_pk = 0
-    for nd in cfg_m.nodes:
-        if nd.ast is None or nd.kind != 'stmt' or not any(
-                isinstance(y, ast.Yield) and y.value is not None
-                and stmt_text(y.value) == 'self.item' for y in ast.walk(nd.ast)):
-            continue
-        fs = facts_m[nd.id]
-        if not any(fa in ('+self.axis is not None', '-self.axis is None') for fa in fs):
-            continue
-        n_pk += 1
-        admitted_combos = []
-        for attr_axis in (True, False):
-            for kind in ('Attribute', 'Element'):
-                ok_c = True
-                for fa in fs:
-                    try:
-                        ex = ast.parse(fa[1:], mode='eval').body
-                    except SyntaxError:
-                        continue
-                    v = ev3(ex, attr_axis, kind)
-                    if v is not None and v != (fa[0] == '+'):
-                        ok_c = False
-                if ok_c:
-                    admitted_combos.append((attr_axis, kind))
-        bad_c = [c for c in admitted_combos if c in ((False, 'Attribute'), (True, 'Element'))]
-        res.instances.append(f'{mm.key}: L{nd.ast.lineno} name test with an active axis admits '
-                             f'(attribute axis, kind) = {admitted_combos}')
-        if not bad_c:
-            res.ok()
-        else:
-            what = 'an attribute on an axis other than attribute' if (False, 'Attribute') in bad_c \
-                else 'an element on the attribute axis'
-            res.fail(finding('R01.6', mm, nd.ast, 'name test ignores the principal node kind',
-                             f'`{stmt_text(nd.ast)[:40]}` is reached for {what}: a name test '
-                             f'selects nodes of the principal node kind of the axis (attribute '
-                             f'for the attribute axis, element otherwise), so //@a/self::a and '
-                             f'//@a/ancestor-or-self::a must not select the attribute'))
-    counts['name_test_admissions'] = n_pk
-    if n_pk < 1:
-        raise AnalysisError('iter_matching_nodes: the name test under an active axis was not located')
+    _name_test_clauses(ctx, res, counts)
     counts['axis_domains'] = n_dom
     counts['sentinel_scans'] = n_scan
     if n_scan < 2:
